@@ -222,4 +222,6 @@ pub fn run(ctx: &mut Ctx) {
     ctx.extra.insert("exhaustive".into(), json!(true));
     ctx.extra.insert("exhaustive_domain".into(), json!("value pool x column types x nullability (writing); boundary values x 8 integer columns + Boolean x 13 requests (reading)"));
     
+    // typed text reads of temporal columns at their boundaries (shared family, harness/src/temporal.rs)
+    crate::temporal::run(ctx, "typed");
 }
